@@ -4,7 +4,7 @@
    correspondence check compares that image with the real lexer run on the real printer's output);
    the refutations run the whole model -- lexer, parser, printer -- on concrete texts. *)
 From LR Require Import lib.Base lib.GoStr model.LqlAst model.LqlLex model.LqlParse model.LqlPrint model.LqlEval.
-From LR Require Import proofs.LqlParseP proofs.LqlStmtP proofs.LqlIntP.
+From LR Require Import proofs.LqlParseP proofs.LqlStmtP proofs.LqlIntP proofs.LqlLexP proofs.LqlTextP proofs.LqlQuoteP.
 From Coq Require Import Strings.String.
 Local Open Scope string_scope.
 Local Open Scope list_scope.
@@ -22,6 +22,18 @@ Corollary C12_expr_meaning : forall e, wf_expr e = true -> exists e', parse_expr
   (forall pm tu tl, build_tags pm tu tl (Some (SrcExpr e')) = build_tags pm tu tl (Some (SrcExpr e))).
 Proof. intros e H. exists e. split; [exact (parse_print_expr e H)|split; reflexivity]. Qed.
 Print Assumptions C12_expr_meaning.
+
+(* At byte level: lql.ParseExpr applied to the text that Expression.String() prints returns the expression.
+   Hypotheses about the text: ASCII identifier-shaped operands / word operators (wt_cond); the quoting function
+   yields one String token starting with a double quote (for every value, whatever follows) that participle's
+   unquote maps back to the value (vq_cond). *)
+Theorem C12_expr_text : forall quote unq,
+  (forall v, exists tl, quote v = x22 :: tl) ->
+  (forall v rest, lex_one (quote v ++ rest) = Some (Some TString, List.length (quote v))) ->
+  forall e, all_conds_expr wt_cond e = true -> wf_expr e = true -> all_conds_expr (vq_cond quote unq) e = true ->
+  parse_expr_text unq (pr_expr quote e) = Some (Some e).
+Proof. intros quote unq Hh Hl e. exact (parse_print_text quote unq Hh Hl e). Qed.
+Print Assumptions C12_expr_text.
 
 (* Source conditions: an expression as above; a {tags} source provided its tag line parses back to the
    tag set (the C08 carve-out, as a hypothesis on this tag set) *)
@@ -138,3 +150,9 @@ Example sample_select_tokens :
   map t_val (tk_lql (fun _ => []) f0 q0 (LSelect (Select None None (Some (Range None (Some 2%Z))) None None (Some (-5)%Z) None))) =
   map B ["SELECT"; "RANGE"; "["; ":"; "T2"; "]"; "OFFSET"; "-5"].
 Proof. vm_compute. reflexivity. Qed.
+
+(* the byte-level hypotheses hold for the sample with the \xHH quoting function and participle's unquote *)
+Example sample_text_hyps :
+  all_conds_expr wt_cond sample_e = true /\ all_conds_expr (vq_cond qx go_unquote) sample_e = true /\
+  parse_expr_text go_unquote (pr_expr qx sample_e) = Some (Some sample_e).
+Proof. repeat split; vm_compute; reflexivity. Qed.
